@@ -18,6 +18,20 @@ def T(quick, thorough, floor=200, **kw):
 
 
 PROPS = {
+    "C20": T(2500, 60000,
+             rule="per case six generated inputs, each algorithm on its documented domain: undirected simple loop-free graph (n<=8, "
+                  "12%: n<=11) for maximal_cliques + dsatur (plus trees/bipartite up to 16 nodes for the k<=2 clause) on one of 8 "
+                  "encodings; directed multigraph for greedy_feedback_arc_set (6 encodings); simple (mostly directed) graph for "
+                  "all_simple_paths, 3 random (a!=b, min in 0..3, max in None/0..3 incl. min>max) queries, 7 encodings; random DAG for "
+                  "tred; undirected weighted graph + 2-4 terminals for steiner_tree (OPT by subset enumeration); directed multigraph for "
+                  "page_rank on pairs of differently labelled encodings; non-trivial = at least 4 of the 6 inputs have >=3 nodes and "
+                  ">=2 edges; distinct = hash of all six inputs"),
+    "C13": T(2500, 60000,
+             rule="pairs of simple graphs (self-loops optional, directed or undirected; n0<=6, n1<=7; node labels from <=3 kinds, edge "
+                  "labels 0/1): relabelled copies, one-edge edits, degree-preserving 2-switches, induced subgraphs +- one edge, tiny "
+                  "(0/1-node) patterns, independent pairs; all five functions on Graph, the two unlabelled ones also on GraphMap; "
+                  "predicates none / == / <= (non-symmetric); full mapping set compared with exhaustive search; "
+                  "non-trivial = pattern >=2 nodes, target >=3 nodes and >=2 edges; distinct = hash of both graphs"),
     "C15": T(6000, 150000,
              rule="matching: graph from blossom-prone families (odd cycles with tails, Petersen, blocks, sparse gnp, multigraphs; "
                   "75% undirected, n<=9, 12%: n<=14) on one random encoding of 9, both algorithms, all accessors, optimum by bitmask DP; "
